@@ -57,7 +57,7 @@ A descendant may leave the process group / session it was born into (`setsid`,
 `setpgid`, `start_new_session=True`, coreutils `timeout`). Parent links are not
 affected by that, group membership is. -/
 
-/-- a process tree in which a node may be the leader of a process group of its own -/
+/-- a process tree in which a node may be the leader of a process group of its own — or, read more generally, may have left the scope a scoped query selects by default (own session, own controlling terminal, another user id) -/
 inductive GTree where
   | node (pid : Nat) (leader : Bool) (children : List GTree)
 deriving Repr
